@@ -1,9 +1,15 @@
-import FxVerif.Model.C03
+import FxVerif.Model.C03Attest
 import FxVerif.Model.Util
 /-! line-protocol driver for the C03 model: `lake env lean --run Driver/C03.lean < ops.txt`
 
-One claim per line (text fields hex-encoded, one `Char` per byte); the answer is the hex SHA-256 of the path generated
-from the Go source, and the model's `ValidateBasic` verdict (`ck` = the checksum bit the model does not compute). -/
+* one claim per line (text fields hex-encoded, one `Char` per byte): the answer is the hex SHA-256 of the path generated
+  from the Go source, and the model's `ValidateBasic` verdict — the regenerated `validGen` (`ck` = the checksum bit the
+  model does not compute);
+* `tgt <hex>`: `fxtypes.ParseFxTarget(<text>, true)` as `SendToFxExecuted` calls it;
+* `cfg <total> <power>:<external address> …`, `last <n>`, `vote <oracle> <handlerPanics> <claim line>`: the attestation
+  model (`Model/C03Attest.lean`) with `H` = SHA-256; the answer is the result kind, the last observed nonce, the hash of
+  the executed claim (if this vote made an attestation observed), the claim stored for `ExecuteClaim` and the attestation
+  table of the nonce under vote; `run <nonce> <handlerFails>`: `ExecuteClaim`. -/
 open FxVerif FxVerif.Util FxVerif.Model.C03
 
 def str (s : String) : Option Str := (unhex s).map (·.map Char.ofNat)
@@ -22,36 +28,101 @@ def memberOf (s : String) : Option BridgeValidator :=
 
 def boolOf (s : String) : Option Bool := if s == "1" then some true else if s == "0" then some false else none
 
-def answer (path : Str) (chain : Str) (valid : AddrKind → Bool) (ck : Bool) : String :=
-  let v := match chainKind chain with
-    | some k => valid k && ck
-    | none => false
-  hashHex path ++ " " ++ (if v then "ok" else "invalid")
-
-def claimLine : List String → Option String
+/-- a claim line: the claim, its `ChainName`, and the checksum bit -/
+def parseClaim : List String → Option (AnyClaim × Str × Bool)
   | ["stf", ch, br, en, bh, tc, amount, snd, rcv, tibc, ck] => do
     let c : MsgSendToFxClaim := { EventNonce := (← en.toNat?), BlockHeight := (← bh.toNat?), TokenContract := (← str tc), Amount := (← intOf amount), Sender := (← str snd), Receiver := (← str rcv), TargetIbc := (← str tibc), BridgerAddress := (← str br), ChainName := (← str ch) }
-    pure (answer c.path c.ChainName (fun k => c.valid k) (← boolOf ck))
+    pure (.stf c, c.ChainName, ← boolOf ck)
   | ["bc", ch, br, en, bh, snd, rf, tcs, amts, to, data, val, memo, org, ck] => do
     let c : MsgBridgeCallClaim := { ChainName := (← str ch), BridgerAddress := (← str br), EventNonce := (← en.toNat?), BlockHeight := (← bh.toNat?), Sender := (← str snd), Refund := (← str rf), TokenContracts := (← listOf str tcs), Amounts := (← listOf intOf amts), To := (← str to), Data := (← str data), Value := (← intOf val), Memo := (← str memo), TxOrigin := (← str org) }
-    pure (answer c.path c.ChainName (fun k => c.valid k) (← boolOf ck))
+    pure (.bc c, c.ChainName, ← boolOf ck)
   | ["bcr", ch, br, en, bh, n, org, ok, cause, ck] => do
     let c : MsgBridgeCallResultClaim := { ChainName := (← str ch), BridgerAddress := (← str br), EventNonce := (← en.toNat?), BlockHeight := (← bh.toNat?), Nonce := (← n.toNat?), TxOrigin := (← str org), Success := (← boolOf ok), Cause := (← str cause) }
-    pure (answer c.path c.ChainName (fun k => c.valid k) (← boolOf ck))
+    pure (.bcr c, c.ChainName, ← boolOf ck)
   | ["ste", ch, br, en, bh, bn, tc, ck] => do
     let c : MsgSendToExternalClaim := { EventNonce := (← en.toNat?), BlockHeight := (← bh.toNat?), BatchNonce := (← bn.toNat?), TokenContract := (← str tc), BridgerAddress := (← str br), ChainName := (← str ch) }
-    pure (answer c.path c.ChainName (fun k => c.valid k) (← boolOf ck))
+    pure (.ste c, c.ChainName, ← boolOf ck)
   | ["bt", ch, br, en, bh, tc, name, sym, dec, chan, ck] => do
     let c : MsgBridgeTokenClaim := { EventNonce := (← en.toNat?), BlockHeight := (← bh.toNat?), TokenContract := (← str tc), Name := (← str name), Symbol := (← str sym), Decimals := (← dec.toNat?), BridgerAddress := (← str br), ChannelIbc := (← str chan), ChainName := (← str ch) }
-    pure (answer c.path c.ChainName (fun k => c.valid k) (← boolOf ck))
+    pure (.bt c, c.ChainName, ← boolOf ck)
   | ["osu", ch, br, en, bh, osn, ms, ck] => do
     let c : MsgOracleSetUpdatedClaim := { EventNonce := (← en.toNat?), BlockHeight := (← bh.toNat?), OracleSetNonce := (← osn.toNat?), Members := (← listOf memberOf ms), BridgerAddress := (← str br), ChainName := (← str ch) }
-    pure (answer c.path c.ChainName (fun k => c.valid k) (← boolOf ck))
+    pure (.osu c, c.ChainName, ← boolOf ck)
   | _ => none
 
-def step (st : Unit) (line : String) : Unit × String :=
-  match words line with
-  | "reset" :: _ => (st, "ok")
-  | ws => (st, (claimLine ws).getD "bad-op")
+def answer (c : AnyClaim) (chain : Str) (ck : Bool) : String :=
+  let v := match chainKind chain with
+    | some k => c.valid k && ck
+    | none => false
+  hashHex c.path ++ " " ++ (if v then "ok" else "invalid")
 
-def main : IO Unit := runDriver step ()
+structure DState where
+  st : AState String := {}
+  /-- the nonce under vote (`last n` sets it to `n + 1`) -/
+  focus : Nat := 0
+
+def insertSorted (x : String) : List String → List String
+  | [] => [x]
+  | y :: r => if x ≤ y then x :: y :: r else y :: insertSorted x r
+
+def attTable (s : AState String) (n : Nat) : String :=
+  let rows := (s.atts.filter (·.nonce == n)).map fun a =>
+    s!"{(a.hash.take 16).toString}:{".".intercalate (a.votes.map fun v => toString v.1)}:{if a.observed then "1" else "0"}"
+  match rows.foldr insertSorted [] with
+  | [] => "-"
+  | rs => ",".intercalate rs
+
+/-- the claim stored for `ExecuteClaim` under nonce `n`, by the first 16 hex digits of its hash -/
+def pendOf (s : AState String) (n : Nat) : String :=
+  match s.pending.lookup n with
+  | some c => ((hashHex c.path).take 16).toString
+  | none => "-"
+
+def cfgEntry (s : String) : Option (Nat × Str) :=
+  match s.splitOn ":" with
+  | [p, a] => do pure (← p.toNat?, ← str a)
+  | _ => none
+
+def indexed {α : Type} : Nat → List α → List (Nat × α)
+  | _, [] => []
+  | i, x :: r => (i, x) :: indexed (i + 1) r
+
+def opLine (d : DState) : List String → Option (DState × String)
+  | ["tgt", raw] => do
+    -- `fxtypes.ParseFxTarget(raw, true)` as `SendToFxExecuted` calls it: routing decision and rendered forms
+    let t := Go.types_ParseFxTarget (← str raw) true
+    let h (x : Str) : String := hex (x.map Char.toNat)
+    pure (d, s!"{if t.isIBC then "ibc" else "local"} {h (Go.types_FxTarget_GetTarget t)} {h t.Prefix} {h t.SourcePort} {h t.SourceChannel} {h (Go.types_FxTarget_String t)}")
+  | "cfg" :: total :: entries => do
+    let es ← entries.mapM cfgEntry
+    let ix := indexed 0 es
+    pure ({ d with st := { d.st with total := (← total.toNat?), powers := ix.map (fun p => (p.1, p.2.1)), exts := es.map (·.2) } }, "ok")
+  | ["last", n] => do
+    let n ← n.toNat?
+    -- the chain has observed everything up to `n`, and so has every configured oracle
+    pure ({ st := { d.st with lastObserved := n, lastByOracle := d.st.powers.map (fun p => (p.1, n)) }, focus := n + 1 }, "ok")
+  | "vote" :: o :: hp :: claim => do
+    let (c, _, _) ← parseClaim claim
+    let before := d.st.executed.length
+    let (s', res) := vote (fun c => hashHex c.path) d.st (← o.toNat?) c (← boolOf hp)
+    let kind := match res with
+      | .ok => "ok" | .logicCheck => "err:logic-check" | .nonContiguous => "err:non-contiguous" | .panic => "panic"
+    let exec := if s'.executed.length > before then ((hashHex c.path).take 16).toString else "-"
+    pure ({ d with st := s' }, s!"{kind} last={s'.lastObserved} exec={exec} pend={pendOf s' d.focus} atts={attTable s' d.focus}")
+  | ["run", n, fails] => do
+    let n ← n.toNat?
+    let had := (d.st.pending.lookup n).isSome
+    let fails ← boolOf fails
+    let s' := execute d.st n fails
+    let kind := if !had then "none" else if fails then "err" else "ok"
+    pure ({ d with st := s' }, s!"{kind} pend={pendOf s' n} ran={s'.ran.length}")
+  | ws => do
+    let (c, chain, ck) ← parseClaim ws
+    pure (d, answer c chain ck)
+
+def step (d : DState) (line : String) : DState × String :=
+  match words line with
+  | "reset" :: _ => ({}, "ok")
+  | ws => (opLine d ws).getD (d, "bad-op")
+
+def main : IO Unit := runDriver step {}
